@@ -46,6 +46,8 @@ CONSTANTS Starts,        \* start instances (one caller process each)
           AllowClose,    \* the closer process exists
           AllowDo,       \* a caller may be Client.Do: after Start returned nil it waits for its handler to finish
           AllowIndicate, \* a caller may be Client.Indicate (Start without a handler): one write, no transaction
+          WObjs,         \* pooled callbackWaitHandler objects of Client.Do (identity matters: the pool is global)
+          PoolOnError,   \* TRUE = the code before the D8 repair: Do puts its wait handler back even when Start failed
           None
 
 RD == "RD"
@@ -69,22 +71,23 @@ VARIABLES
   wsucc,                             \* wsucc[id]: number of successful writes for id
   wlog,                              \* sequence of writes [id, attempt, t, ok]   (observation)
   hcalls, hlast, ret, fbcalls,       \* per start: handler invocations, last event kind, Start result; fallback calls
-  ended                              \* ended[id]: the transaction's handler has run or Close returned (for QuietAfterEnd)
+  ended,                             \* ended[id]: the transaction's handler has run or Close returned (for QuietAfterEnd)
+  wp                                 \* Do's wait handlers: wp.w[x] = [free, processed, cb]; wp.panic: HandleEvent found no callback
 
 vars == << closed, closeChan, connCloses, ct, at, aclosed, alock, obj, clock, idleLeft, rto, rtoBudget, pc, loc, inbox,
-           fails, resps, junk, wsucc, wlog, hcalls, hlast, ret, fbcalls, ended >>
+           fails, resps, junk, wsucc, wlog, hcalls, hlast, ret, fbcalls, ended, wp >>
 
 \* observation-only variables are hidden from the state identity
 View == << closed, closeChan, connCloses, ct, at, aclosed, alock, obj, clock, idleLeft, rto, rtoBudget, pc, loc, inbox,
-           fails, resps, junk, wsucc, hcalls, ret, fbcalls, ended >>
+           fails, resps, junk, wsucc, hcalls, ret, fbcalls, ended, wp >>
 
-NoLoc == [id |-> None, o |-> None, ev |-> None, todo |-> <<>>, rpc |-> None, s |-> None, now |-> 0]
+NoLoc == [id |-> None, o |-> None, ev |-> None, todo |-> <<>>, rpc |-> None, s |-> None, now |-> 0, w |-> None]
 
 Init ==
   /\ closed = FALSE /\ closeChan = FALSE /\ connCloses = 0
   /\ ct = [i \in Ids |-> None]
   /\ at = [i \in Ids |-> None] /\ aclosed = FALSE /\ alock = None
-  /\ obj = [o \in Objs |-> [id |-> None, attempt |-> 0, calls |-> 0, owner |-> None, free |-> TRUE, reg |-> 0, prev |-> 0, rto |-> 1]]
+  /\ obj = [o \in Objs |-> [id |-> None, attempt |-> 0, calls |-> 0, owner |-> None, free |-> TRUE, reg |-> 0, prev |-> 0, rto |-> 1, w |-> None]]
   /\ clock = 0
   /\ rto = 1 /\ rtoBudget = RtoChanges /\ idleLeft = IdleCollects
   /\ pc = [p \in Procs |-> IF p \in Starts THEN "idle" ELSE IF p = RD THEN "RD_read" ELSE IF p = CL THEN "CL_idle"
@@ -97,6 +100,7 @@ Init ==
   /\ hcalls = [s \in Starts |-> 0] /\ hlast = [s \in Starts |-> None] /\ ret = [s \in Starts |-> "none"]
   /\ fbcalls = 0
   /\ ended = [i \in Ids |-> FALSE]
+  /\ wp = [w |-> [x \in WObjs |-> [free |-> TRUE, processed |-> FALSE, cb |-> None]], panic |-> FALSE]
 
 Ev(kind, id) == [kind |-> kind, id |-> id]
 
@@ -105,6 +109,14 @@ SetLoc(p, r) == loc' = [loc EXCEPT ![p] = r]
 
 \* a transaction keeps the RTO that was current when it was started (obj[o].rto)
 Deadline(now, attempt, r) == now + (attempt + 1) * r
+
+\* Do's wait handlers (callbackWaitHandlerPool).  setCallback stores the caller's callback and leaves `processed`
+\* as it is; a handler whose Start failed goes back to the pool only in the code before the D8 repair; an object
+\* that is dropped is never handed out again (sync.Pool would build a new one: WObjs has one per caller)
+FreeW == { x \in WObjs : wp.w[x].free }
+AcquireW(x, s) == [wp EXCEPT !.w[x].free = FALSE, !.w[x].cb = s]
+ReleaseOnErr(q, x) == IF x = None \/ ~PoolOnError THEN q ELSE [q EXCEPT !.w[x].free = TRUE]
+Kinds == {"start"} \cup (IF AllowDo /\ FreeW # {} THEN {"do"} ELSE {}) \cup (IF AllowIndicate THEN {"ind"} ELSE {})
 
 ---------------------------------------------------------------------------
 (* conn.Write: succeeds, or fails while the budget lasts *)
@@ -121,11 +133,13 @@ LogWrite(id, attempt, reg, prev, r, ok) ==
 \* S0: checkInit + closed read under RLock, up to the clock.Now gate
 StartBegin(s) ==
   /\ pc[s] = "idle"
-  /\ IF closed
-     THEN /\ Goto(s, "done") /\ ret' = [ret EXCEPT ![s] = "err"] /\ UNCHANGED loc
-     ELSE \* with a handler: on to the clock reading; an indication goes straight to conn.Write
-          /\ \E ind \in (IF AllowIndicate THEN BOOLEAN ELSE {FALSE}) : Goto(s, IF ind THEN "I_write" ELSE "S_now")
-          /\ SetLoc(s, [NoLoc EXCEPT !.id = IdOf[s], !.s = s]) /\ UNCHANGED ret
+  /\ \E kind \in Kinds : \E x \in (IF kind = "do" THEN FreeW ELSE {None}) :
+       LET q == IF kind = "do" THEN AcquireW(x, s) ELSE wp IN     \* Do: pool.Get, setCallback, then Start
+       IF closed
+       THEN /\ Goto(s, "done") /\ ret' = [ret EXCEPT ![s] = "err"] /\ UNCHANGED loc /\ wp' = ReleaseOnErr(q, x)
+       ELSE \* with a handler: on to the clock reading; an indication goes straight to conn.Write
+            /\ Goto(s, IF kind = "ind" THEN "I_write" ELSE "S_now")
+            /\ SetLoc(s, [NoLoc EXCEPT !.id = IdOf[s], !.s = s, !.w = x]) /\ UNCHANGED ret /\ wp' = q
   /\ UNCHANGED << closed, closeChan, connCloses, ct, at, aclosed, alock, obj, clock, idleLeft, rto, rtoBudget, inbox, fails, resps, junk,
                   wsucc, wlog, hcalls, hlast, fbcalls, ended >>
 
@@ -133,9 +147,9 @@ StartBegin(s) ==
 StartNow(s) ==
   /\ pc[s] = "S_now"
   /\ \E o \in { x \in Objs : obj[x].free } :
-       /\ obj' = [obj EXCEPT ![o] = [id |-> IdOf[s], attempt |-> 0, calls |-> 0, owner |-> s, free |-> FALSE, reg |-> clock, prev |-> clock, rto |-> rto]]
+       /\ obj' = [obj EXCEPT ![o] = [id |-> IdOf[s], attempt |-> 0, calls |-> 0, owner |-> s, free |-> FALSE, reg |-> clock, prev |-> clock, rto |-> rto, w |-> loc[s].w]]
        /\ Goto(s, "S_cstart") /\ SetLoc(s, [loc[s] EXCEPT !.o = o, !.now = clock])
-  /\ UNCHANGED << closed, closeChan, connCloses, ct, at, aclosed, alock, clock, idleLeft, rto, rtoBudget, inbox, fails, resps, junk,
+  /\ UNCHANGED << wp, closed, closeChan, connCloses, ct, at, aclosed, alock, clock, idleLeft, rto, rtoBudget, inbox, fails, resps, junk,
                   wsucc, wlog, hcalls, hlast, ret, fbcalls, ended >>
 
 \* S1b: c.start - the critical section that enters the transaction into the client table (its own gate: the
@@ -145,9 +159,9 @@ StartRegister(s) ==
   /\ pc[s] = "S_cstart"
   /\ LET id == IdOf[s] IN
      IF closed \/ ct[id] # None
-     THEN /\ Goto(s, "done") /\ ret' = [ret EXCEPT ![s] = "err"] /\ UNCHANGED ct
+     THEN /\ Goto(s, "done") /\ ret' = [ret EXCEPT ![s] = "err"] /\ UNCHANGED ct /\ wp' = ReleaseOnErr(wp, loc[s].w)
      ELSE /\ ct' = [ct EXCEPT ![id] = loc[s].o]
-          /\ Goto(s, "S_agentStart") /\ UNCHANGED ret
+          /\ Goto(s, "S_agentStart") /\ UNCHANGED << ret, wp >>
   /\ UNCHANGED << closed, closeChan, connCloses, at, aclosed, alock, obj, clock, idleLeft, rto, rtoBudget, loc, inbox, fails, resps, junk,
                   wsucc, wlog, hcalls, hlast, fbcalls, ended >>
 
@@ -156,9 +170,9 @@ StartAgent(s) ==
   /\ pc[s] = "S_agentStart" /\ alock = None
   /\ LET id == IdOf[s] IN
      IF aclosed \/ at[id] # None
-     THEN /\ Goto(s, "done") /\ ret' = [ret EXCEPT ![s] = "err"] /\ UNCHANGED at
+     THEN /\ Goto(s, "done") /\ ret' = [ret EXCEPT ![s] = "err"] /\ UNCHANGED at /\ wp' = ReleaseOnErr(wp, loc[s].w)
      ELSE /\ at' = [at EXCEPT ![id] = Deadline(loc[s].now, 0, obj[loc[s].o].rto)]
-          /\ Goto(s, "S_write") /\ UNCHANGED ret
+          /\ Goto(s, "S_write") /\ UNCHANGED << ret, wp >>
   /\ UNCHANGED << closed, closeChan, connCloses, ct, aclosed, alock, obj, clock, idleLeft, rto, rtoBudget, loc, inbox, fails, resps, junk,
                   wsucc, wlog, hcalls, hlast, fbcalls, ended >>
 
@@ -173,10 +187,10 @@ StartWrite(s) ==
        /\ LogWrite(IdOf[s], 0, loc[s].now, loc[s].now, obj[loc[s].o].rto, ok)
        /\ IF ok
           THEN \* Start returns nil; a Do caller goes on to callbackWaitHandler.wait()
-               /\ \E d \in (IF AllowDo THEN BOOLEAN ELSE {FALSE}) : Goto(s, IF d THEN "D_wait" ELSE "done")
+               /\ Goto(s, IF loc[s].w # None THEN "D_wait" ELSE "done")
                /\ ret' = [ret EXCEPT ![s] = "nil"] /\ UNCHANGED ct
           ELSE /\ ct' = [ct EXCEPT ![IdOf[s]] = None] /\ Goto(s, "S_agentStop") /\ UNCHANGED ret
-  /\ UNCHANGED << closed, closeChan, connCloses, at, aclosed, alock, obj, clock, idleLeft, rto, rtoBudget, loc, inbox, resps, junk,
+  /\ UNCHANGED << wp, closed, closeChan, connCloses, at, aclosed, alock, obj, clock, idleLeft, rto, rtoBudget, loc, inbox, resps, junk,
                   hcalls, hlast, fbcalls, ended >>
 
 \* S4: agent.Stop critical section; a registered transaction yields a stopped event (nested callback)
@@ -184,16 +198,16 @@ StartStop(s) ==
   /\ pc[s] = "S_agentStop" /\ alock = None
   /\ LET id == IdOf[s] IN
      IF aclosed \/ at[id] = None
-     THEN /\ Goto(s, "done") /\ ret' = [ret EXCEPT ![s] = "err"] /\ UNCHANGED << at, loc >>
+     THEN /\ Goto(s, "done") /\ ret' = [ret EXCEPT ![s] = "err"] /\ UNCHANGED << at, loc >> /\ wp' = ReleaseOnErr(wp, loc[s].w)
      ELSE /\ at' = [at EXCEPT ![id] = None]
           /\ Goto(s, "CB_enter") /\ SetLoc(s, [loc[s] EXCEPT !.ev = Ev("stopped", id), !.rpc = "S_stopret"])
-          /\ UNCHANGED ret
+          /\ UNCHANGED << ret, wp >>
   /\ UNCHANGED << closed, closeChan, connCloses, ct, aclosed, alock, obj, clock, idleLeft, rto, rtoBudget, inbox, fails, resps, junk,
                   wsucc, wlog, hcalls, hlast, fbcalls, ended >>
 
 StartStopRet(s) ==
   /\ pc[s] = "S_stopret"
-  /\ Goto(s, "done") /\ ret' = [ret EXCEPT ![s] = "err"]
+  /\ Goto(s, "done") /\ ret' = [ret EXCEPT ![s] = "err"] /\ wp' = ReleaseOnErr(wp, loc[s].w)
   /\ UNCHANGED << closed, closeChan, connCloses, ct, at, aclosed, alock, obj, clock, idleLeft, rto, rtoBudget, loc, inbox, fails, resps, junk,
                   wsucc, wlog, hcalls, hlast, fbcalls, ended >>
 
@@ -204,14 +218,15 @@ IndicateWrite(s) ==
   /\ \E ok \in WriteOutcomes :
        /\ LogWrite(IdOf[s], 0, clock, clock, rto, ok)
        /\ Goto(s, "done") /\ ret' = [ret EXCEPT ![s] = IF ok THEN "ind" ELSE "err"]
-  /\ UNCHANGED << closed, closeChan, connCloses, ct, at, aclosed, alock, obj, clock, idleLeft, rto, rtoBudget, loc, inbox, resps, junk,
+  /\ UNCHANGED << wp, closed, closeChan, connCloses, ct, at, aclosed, alock, obj, clock, idleLeft, rto, rtoBudget, loc, inbox, resps, junk,
                   hcalls, hlast, fbcalls, ended >>
 
 \* Client.Do: callbackWaitHandler.wait() returns once HandleEvent has run the caller's callback to its end
 \* (the wait handler's condition variable is signalled after the callback returned)
 DoReturn(s) ==
-  /\ pc[s] = "D_wait" /\ hcalls[s] >= 1
+  /\ pc[s] = "D_wait" /\ wp.w[loc[s].w].processed
   /\ Goto(s, "done")
+  /\ wp' = [wp EXCEPT !.w[loc[s].w] = [free |-> TRUE, processed |-> FALSE, cb |-> None]]    \* wait() resets, Do puts it back
   /\ UNCHANGED << closed, closeChan, connCloses, ct, at, aclosed, alock, obj, clock, idleLeft, rto, rtoBudget, loc, inbox, fails, resps, junk,
                   wsucc, wlog, hcalls, hlast, ret, fbcalls, ended >>
 
@@ -237,12 +252,12 @@ CbLookup(p) ==
                      IF obj[o].calls = 0
                      THEN /\ obj' = [obj EXCEPT ![o].calls = 1]
                           \* t.h is read right after the once-guard: the handler about to run is the current owner's
-                          /\ Goto(p, "UH") /\ SetLoc(p, [loc[p] EXCEPT !.o = o, !.s = obj[o].owner])
+                          /\ Goto(p, "UH") /\ SetLoc(p, [loc[p] EXCEPT !.o = o, !.s = obj[o].owner, !.w = obj[o].w])
                      ELSE /\ obj' = PutObj(o) /\ Goto(p, "CB_exit") /\ UNCHANGED loc
                 ELSE \* retransmission: attempt++, copy to scratch -> clock.Now gate
                      /\ obj' = [obj EXCEPT ![o].attempt = @ + 1]
                      /\ Goto(p, "R_now") /\ SetLoc(p, [loc[p] EXCEPT !.o = o, !.id = obj[o].id])
-  /\ UNCHANGED << closed, closeChan, connCloses, at, aclosed, alock, clock, idleLeft, rto, rtoBudget, inbox, fails, resps, junk,
+  /\ UNCHANGED << wp, closed, closeChan, connCloses, at, aclosed, alock, clock, idleLeft, rto, rtoBudget, inbox, fails, resps, junk,
                   wsucc, wlog, hcalls, hlast, ret, fbcalls, ended >>
 
 \* the user handler body (of the start instance that owns the object *now*), then pool put
@@ -250,8 +265,14 @@ UserHandler(p) ==
   /\ pc[p] = "UH"
   /\ LET o == loc[p].o
          s == loc[p].s
-     IN /\ hcalls' = [hcalls EXCEPT ![s] = IF @ < 2 THEN @ + 1 ELSE @]
-        /\ hlast' = [hlast EXCEPT ![s] = loc[p].ev]
+         x == loc[p].w                                     \* t.h: the caller's own handler, or a Do wait handler
+         tgt == IF x = None THEN s ELSE wp.w[x].cb          \* whose callback HandleEvent runs *now*
+     IN /\ IF x # None /\ tgt = None
+           THEN \* HandleEvent finds no callback: panic("s.callback is nil")
+                /\ wp' = [wp EXCEPT !.panic = TRUE] /\ UNCHANGED << hcalls, hlast >>
+           ELSE /\ hcalls' = [hcalls EXCEPT ![tgt] = IF @ < 2 THEN @ + 1 ELSE @]
+                /\ hlast' = [hlast EXCEPT ![tgt] = loc[p].ev]
+                /\ wp' = IF x = None THEN wp ELSE [wp EXCEPT !.w[x].processed = TRUE]
         /\ ended' = [i \in Ids |-> ended[i] \/ i = IdOf[s]]
         /\ obj' = PutObj(o)
   /\ Goto(p, "CB_exit")
@@ -262,14 +283,14 @@ Fallback(p) ==
   /\ pc[p] = "FB"
   /\ fbcalls' = IF fbcalls < 3 THEN fbcalls + 1 ELSE fbcalls
   /\ Goto(p, "CB_exit")
-  /\ UNCHANGED << closed, closeChan, connCloses, ct, at, aclosed, alock, obj, clock, idleLeft, rto, rtoBudget, loc, inbox, fails, resps, junk,
+  /\ UNCHANGED << wp, closed, closeChan, connCloses, ct, at, aclosed, alock, obj, clock, idleLeft, rto, rtoBudget, loc, inbox, fails, resps, junk,
                   wsucc, wlog, hcalls, hlast, ret, ended >>
 
 \* completion with an error from the retransmission path: once-guard, handler or put
 FailWith(p, o, kind) ==
   IF obj[o].calls = 0
   THEN /\ obj' = [obj EXCEPT ![o].calls = 1]
-       /\ Goto(p, "UH") /\ SetLoc(p, [loc[p] EXCEPT !.ev = Ev(kind, loc[p].id), !.s = obj[o].owner])
+       /\ Goto(p, "UH") /\ SetLoc(p, [loc[p] EXCEPT !.ev = Ev(kind, loc[p].id), !.s = obj[o].owner, !.w = obj[o].w])
   ELSE /\ obj' = PutObj(o) /\ Goto(p, "CB_exit") /\ UNCHANGED loc
 
 \* R2: clock read for the retransmission -> c.start gate
@@ -277,7 +298,7 @@ RetxNow(p) ==
   /\ pc[p] = "R_now"
   /\ Goto(p, "R_cstart") /\ SetLoc(p, [loc[p] EXCEPT !.now = clock])
   /\ obj' = [obj EXCEPT ![loc[p].o].prev = obj[loc[p].o].reg, ![loc[p].o].reg = clock]
-  /\ UNCHANGED << closed, closeChan, connCloses, ct, at, aclosed, alock, clock, idleLeft, rto, rtoBudget, inbox, fails, resps, junk,
+  /\ UNCHANGED << wp, closed, closeChan, connCloses, ct, at, aclosed, alock, clock, idleLeft, rto, rtoBudget, inbox, fails, resps, junk,
                   wsucc, wlog, hcalls, hlast, ret, fbcalls, ended >>
 
 \* R2b: c.start re-registration (or its error path: c.delete + handle)
@@ -290,7 +311,7 @@ RetxRegister(p) ==
              /\ FailWith(p, o, "starterr")
         ELSE /\ ct' = [ct EXCEPT ![id] = o]
              /\ Goto(p, "R_agentStart") /\ UNCHANGED << obj, loc >>
-  /\ UNCHANGED << closed, closeChan, connCloses, at, aclosed, alock, clock, idleLeft, rto, rtoBudget, inbox, fails, resps, junk,
+  /\ UNCHANGED << wp, closed, closeChan, connCloses, at, aclosed, alock, clock, idleLeft, rto, rtoBudget, inbox, fails, resps, junk,
                   wsucc, wlog, hcalls, hlast, ret, fbcalls, ended >>
 
 \* R3: agent.Start with the new deadline (or its error path)
@@ -302,7 +323,7 @@ RetxAgent(p) ==
         THEN /\ ct' = [ct EXCEPT ![id] = None] /\ FailWith(p, o, "starterr") /\ UNCHANGED at
         ELSE /\ at' = [at EXCEPT ![id] = Deadline(loc[p].now, obj[o].attempt, obj[o].rto)]
              /\ Goto(p, "R_write") /\ UNCHANGED << ct, obj, loc >>
-  /\ UNCHANGED << closed, closeChan, connCloses, aclosed, alock, clock, idleLeft, rto, rtoBudget, inbox, fails, resps, junk,
+  /\ UNCHANGED << wp, closed, closeChan, connCloses, aclosed, alock, clock, idleLeft, rto, rtoBudget, inbox, fails, resps, junk,
                   wsucc, wlog, hcalls, hlast, ret, fbcalls, ended >>
 
 \* R4: the retransmission itself
@@ -315,7 +336,7 @@ RetxWrite(p) ==
        /\ LogWrite(loc[p].id, obj[loc[p].o].attempt, loc[p].now, obj[loc[p].o].prev, obj[loc[p].o].rto, ok)
        /\ IF ok THEN Goto(p, "CB_exit") /\ UNCHANGED ct
           ELSE ct' = [ct EXCEPT ![loc[p].id] = None] /\ Goto(p, "R_agentStop")
-  /\ UNCHANGED << closed, closeChan, connCloses, at, aclosed, alock, obj, clock, idleLeft, rto, rtoBudget, loc, inbox, resps, junk,
+  /\ UNCHANGED << wp, closed, closeChan, connCloses, at, aclosed, alock, obj, clock, idleLeft, rto, rtoBudget, loc, inbox, resps, junk,
                   hcalls, hlast, ret, fbcalls, ended >>
 
 \* R5: agent.Stop after a failed retransmission (its nested stopped event finds nothing and is ignored),
@@ -324,7 +345,7 @@ RetxStop(p) ==
   /\ pc[p] = "R_agentStop" /\ alock = None
   /\ at' = IF aclosed THEN at ELSE [at EXCEPT ![loc[p].id] = None]
   /\ FailWith(p, loc[p].o, "writeerr")
-  /\ UNCHANGED << closed, closeChan, connCloses, ct, aclosed, alock, clock, idleLeft, rto, rtoBudget, inbox, fails, resps, junk,
+  /\ UNCHANGED << wp, closed, closeChan, connCloses, ct, aclosed, alock, clock, idleLeft, rto, rtoBudget, inbox, fails, resps, junk,
                   wsucc, wlog, hcalls, hlast, ret, fbcalls, ended >>
 
 \* return from the wrapped handler into the agent method that called it
@@ -349,7 +370,7 @@ CbExit(p) ==
                  /\ AfterAgentClose /\ SetLoc(p, NoLoc)
             ELSE Goto(p, "CB_enter") /\ SetLoc(p, [NoLoc EXCEPT !.ev = Ev("closed", Head(loc[p].todo)), !.todo = Tail(loc[p].todo), !.rpc = "X"])
                  /\ UNCHANGED << at, aclosed, alock, closeChan >>
-  /\ UNCHANGED << closed, connCloses, ct, obj, clock, idleLeft, rto, rtoBudget, inbox, fails, resps, junk,
+  /\ UNCHANGED << wp, closed, connCloses, ct, obj, clock, idleLeft, rto, rtoBudget, inbox, fails, resps, junk,
                   wsucc, wlog, hcalls, hlast, ret, fbcalls, ended >>
 
 ---------------------------------------------------------------------------
@@ -362,7 +383,7 @@ ReaderRead ==
         /\ IF inbox.kind = "garbage"
            THEN UNCHANGED << pc, loc >>                    \* undecodable: dropped, next Read
            ELSE Goto(RD, "RD_process") /\ SetLoc(RD, [NoLoc EXCEPT !.id = inbox.id])
-  /\ UNCHANGED << closed, closeChan, connCloses, ct, at, aclosed, alock, obj, clock, idleLeft, rto, rtoBudget, fails, resps, junk,
+  /\ UNCHANGED << wp, closed, closeChan, connCloses, ct, at, aclosed, alock, obj, clock, idleLeft, rto, rtoBudget, fails, resps, junk,
                   wsucc, wlog, hcalls, hlast, ret, fbcalls, ended >>
 
 InRetxWindow(i) == \E p \in Procs : pc[p] \in {"R_now", "R_cstart", "R_agentStart"} /\ loc[p].id = i
@@ -374,7 +395,7 @@ ReaderProcess ==
      THEN Goto(RD, "RD_done") /\ UNCHANGED << at, loc >>
      ELSE /\ at' = [i \in Ids |-> IF i = loc[RD].id THEN None ELSE at[i]]
           /\ Goto(RD, "CB_enter") /\ SetLoc(RD, [NoLoc EXCEPT !.ev = Ev("msg", loc[RD].id), !.rpc = "RD"])
-  /\ UNCHANGED << closed, closeChan, connCloses, ct, aclosed, alock, obj, clock, idleLeft, rto, rtoBudget, inbox, fails, resps, junk,
+  /\ UNCHANGED << wp, closed, closeChan, connCloses, ct, aclosed, alock, obj, clock, idleLeft, rto, rtoBudget, inbox, fails, resps, junk,
                   wsucc, wlog, hcalls, hlast, ret, fbcalls, ended >>
 
 (* collector goroutine: one Collect(now) call *)
@@ -390,7 +411,7 @@ CollectorRun ==
           /\ \E q \in Perms(dead) :
                /\ Goto(CL, "CB_enter")
                /\ SetLoc(CL, [NoLoc EXCEPT !.ev = Ev("timeout", q[1]), !.todo = Tail(q), !.rpc = "CL"])
-  /\ UNCHANGED << closed, closeChan, connCloses, ct, aclosed, alock, obj, clock, idleLeft, rto, rtoBudget, inbox, fails, resps, junk,
+  /\ UNCHANGED << wp, closed, closeChan, connCloses, ct, aclosed, alock, obj, clock, idleLeft, rto, rtoBudget, inbox, fails, resps, junk,
                   wsucc, wlog, hcalls, hlast, ret, fbcalls, ended >>
 
 \* a Collect call that finds nothing expired: no effect in the model; replayed, it gives the real agent the chance
@@ -400,7 +421,7 @@ CollectorIdleRun ==
   /\ { i \in Ids : at[i] # None /\ at[i] < clock } = {}
   /\ \E i \in Ids : at[i] # None
   /\ idleLeft' = idleLeft - 1
-  /\ UNCHANGED << closed, closeChan, connCloses, ct, at, aclosed, alock, obj, clock, rto, rtoBudget, pc, loc, inbox, fails, resps, junk,
+  /\ UNCHANGED << wp, closed, closeChan, connCloses, ct, at, aclosed, alock, obj, clock, rto, rtoBudget, pc, loc, inbox, fails, resps, junk,
                   wsucc, wlog, hcalls, hlast, ret, fbcalls, ended >>
 
 (* Client.Close *)
@@ -408,14 +429,14 @@ CloseBegin ==
   /\ pc[X] = "X_begin"
   /\ IF closed THEN Goto(X, "X_done_err") /\ UNCHANGED closed
      ELSE closed' = TRUE /\ Goto(X, "X_collClose")
-  /\ UNCHANGED << closeChan, connCloses, ct, at, aclosed, alock, obj, clock, idleLeft, rto, rtoBudget, loc, inbox, fails, resps, junk,
+  /\ UNCHANGED << wp, closeChan, connCloses, ct, at, aclosed, alock, obj, clock, idleLeft, rto, rtoBudget, loc, inbox, fails, resps, junk,
                   wsucc, wlog, hcalls, hlast, ret, fbcalls, ended >>
 
 \* collector.Close returns only when the collector goroutine is idle; it then stops for good
 CloseCollector ==
   /\ pc[X] = "X_collClose" /\ pc[CL] = "CL_idle"
   /\ pc' = [pc EXCEPT ![X] = "X_agentClose", ![CL] = "CL_stopped"]
-  /\ UNCHANGED << closed, closeChan, connCloses, ct, at, aclosed, alock, obj, clock, idleLeft, rto, rtoBudget, loc, inbox, fails, resps, junk,
+  /\ UNCHANGED << wp, closed, closeChan, connCloses, ct, at, aclosed, alock, obj, clock, idleLeft, rto, rtoBudget, loc, inbox, fails, resps, junk,
                   wsucc, wlog, hcalls, hlast, ret, fbcalls, ended >>
 
 \* agent.Close: the agent mutex stays held across the closed events of all registered transactions
@@ -430,7 +451,7 @@ CloseAgent ==
                /\ Goto(X, "CB_enter")
                /\ SetLoc(X, [NoLoc EXCEPT !.ev = Ev("closed", q[1]), !.todo = Tail(q), !.rpc = "X"])
           /\ UNCHANGED << aclosed, at, closeChan >>
-  /\ UNCHANGED << closed, connCloses, ct, obj, clock, idleLeft, rto, rtoBudget, inbox, fails, resps, junk,
+  /\ UNCHANGED << wp, closed, connCloses, ct, obj, clock, idleLeft, rto, rtoBudget, inbox, fails, resps, junk,
                   wsucc, wlog, hcalls, hlast, ret, fbcalls, ended >>
 
 \* conn.Close (unless WithNoConnClose), close(c.close); then wg.Wait
@@ -439,14 +460,14 @@ CloseConnAndChan ==
   /\ connCloses' = connCloses + 1
   /\ closeChan' = TRUE
   /\ Goto(X, "X_wait")
-  /\ UNCHANGED << closed, ct, at, aclosed, alock, obj, clock, idleLeft, rto, rtoBudget, loc, inbox, fails, resps, junk,
+  /\ UNCHANGED << wp, closed, ct, at, aclosed, alock, obj, clock, idleLeft, rto, rtoBudget, loc, inbox, fails, resps, junk,
                   wsucc, wlog, hcalls, hlast, ret, fbcalls, ended >>
 
 CloseWait ==
   /\ pc[X] = "X_wait" /\ pc[RD] = "RD_done"
   /\ Goto(X, "X_done")
   /\ ended' = [i \in Ids |-> TRUE]
-  /\ UNCHANGED << closed, closeChan, connCloses, ct, at, aclosed, alock, obj, clock, idleLeft, rto, rtoBudget, loc, inbox, fails, resps, junk,
+  /\ UNCHANGED << wp, closed, closeChan, connCloses, ct, at, aclosed, alock, obj, clock, idleLeft, rto, rtoBudget, loc, inbox, fails, resps, junk,
                   wsucc, wlog, hcalls, hlast, ret, fbcalls >>
 
 ---------------------------------------------------------------------------
@@ -458,14 +479,14 @@ Tick ==
   /\ clock < MaxClock
   /\ DeadlineTicks => (\E j \in Ids : at[j] # None) /\ NextDeadline > clock
   /\ clock' = IF DeadlineTicks /\ NextDeadline > clock /\ NextDeadline <= MaxClock THEN NextDeadline ELSE clock + 1
-  /\ UNCHANGED << closed, closeChan, connCloses, ct, at, aclosed, alock, obj, idleLeft, rto, rtoBudget, pc, loc, inbox, fails, resps, junk,
+  /\ UNCHANGED << wp, closed, closeChan, connCloses, ct, at, aclosed, alock, obj, idleLeft, rto, rtoBudget, pc, loc, inbox, fails, resps, junk,
                   wsucc, wlog, hcalls, hlast, ret, fbcalls, ended >>
 
 \* Client.SetRTO: affects transactions started later only
 SetRTO ==
   /\ rtoBudget > 0
   /\ rto' = 3 - rto /\ rtoBudget' = rtoBudget - 1
-  /\ UNCHANGED << closed, closeChan, connCloses, ct, at, aclosed, alock, obj, clock, idleLeft, pc, loc, inbox, fails, resps, junk,
+  /\ UNCHANGED << wp, closed, closeChan, connCloses, ct, at, aclosed, alock, obj, clock, idleLeft, pc, loc, inbox, fails, resps, junk,
                   wsucc, wlog, hcalls, hlast, ret, fbcalls, ended >>
 
 \* a response can only exist for a request that reached the wire
@@ -473,7 +494,7 @@ Deliver ==
   /\ inbox = None /\ ~closeChan
   /\ \/ /\ resps > 0 /\ \E i \in Ids : wsucc[i] > 0 /\ inbox' = [kind |-> "msg", id |-> i] /\ resps' = resps - 1 /\ UNCHANGED junk
      \/ /\ junk > 0 /\ inbox' \in { [kind |-> "garbage", id |-> Unk], [kind |-> "msg", id |-> Unk] } /\ junk' = junk - 1 /\ UNCHANGED resps
-  /\ UNCHANGED << closed, closeChan, connCloses, ct, at, aclosed, alock, obj, clock, idleLeft, rto, rtoBudget, pc, loc, fails,
+  /\ UNCHANGED << wp, closed, closeChan, connCloses, ct, at, aclosed, alock, obj, clock, idleLeft, rto, rtoBudget, pc, loc, fails,
                   wsucc, wlog, hcalls, hlast, ret, fbcalls, ended >>
 
 CbStep(p) == CbLookup(p) \/ UserHandler(p) \/ Fallback(p) \/ RetxNow(p) \/ RetxRegister(p) \/ RetxAgent(p) \/ RetxWrite(p)
@@ -499,8 +520,10 @@ ExactlyOnceAfterClose == CloseReturned => \A s \in Starts : (pc[s] \in {"done", 
 \* Do returns only after its handler ran, and is never left waiting once the handler has run and Close returned
 \* an indication never has a handler call and never enters a table
 IndicationsAreNotTransactions == \A s \in Starts : ret[s] = "ind" => hcalls[s] = 0
+\* HandleEvent always finds the callback of the Do call that is waiting on it
+NoPanic == ~wp.panic
 DoWaits == [][ \A s \in Starts : (pc[s] = "D_wait" /\ pc'[s] = "done") => hcalls[s] >= 1 ]_vars
-DoNotStuck == CloseReturned => \A s \in Starts : pc[s] = "D_wait" => hcalls[s] >= 1
+DoNotStuck == CloseReturned => \A s \in Starts : pc[s] = "D_wait" => (hcalls[s] >= 1 /\ wp.w[loc[s].w].processed)
 \* the handler of a start instance sees an event for its own transaction id
 RoutedByID == \A s \in Starts : hlast[s] # None => hlast[s].id = IdOf[s]
 
@@ -530,6 +553,7 @@ ClosedStartsRefused == [][ \A s \in Starts : (CloseReturned /\ pc[s] = "idle" /\
 ClosedAPI == CloseReturned => \A s \in Starts : (pc[s] = "idle") => ENABLED StartBegin(s)
 
 TypeOK == /\ \A i \in Ids : ct[i] \in Objs \cup {None}
+          /\ \A x \in WObjs : wp.w[x].cb \in Starts \cup {None}
           /\ alock \in {None, X}
           /\ clock \in 0..MaxClock
 =============================================================================
